@@ -121,7 +121,12 @@ def answer (l : String) : String :=
         sep (showLong (toLongNaN 0 (List.zipWith (opNaN f) n1 n2))) (showLong (toLongRag 0 (List.zipWith (opRag f) r1 r2)))
       let num := fun (f : ℚ → ℚ → ℚ) =>
         sep (showLong (toLongNaN 0 (n1.map (opNumNaN f a)))) (showLong (toLongRag 0 (r1.map (opNumRag f a))))
-      sep (sep (bin (· + ·)) (bin (· - ·))) (sep (sep (bin (· * ·)) (num (· * ·))) (num (· + ·)))
+      -- the last block divides by the SECOND value matrix with zeros replaced by 1 (the harness does the same)
+      let nz := fun (c : NaNCurve) => (⟨c.pts, c.vals.map (Option.map fun y => if y = 0 then 1 else y)⟩ : NaNCurve)
+      let nzr := fun (c : RagCurve) => c.map fun p => (p.1, if p.2 = 0 then (1 : ℚ) else p.2)
+      let dv := sep (showLong (toLongNaN 0 (List.zipWith (opNaN (· / ·)) n1 (n2.map nz))))
+                    (showLong (toLongRag 0 (List.zipWith (opRag (· / ·)) r1 (r2.map nzr))))
+      sep (sep (sep (bin (· + ·)) (bin (· - ·))) (sep (sep (bin (· * ·)) (num (· * ·))) (num (· + ·)))) dv
     | _, _, _, _, _ => "bad"
   | ["fmt", g, v, m, d] =>
     -- inputs of mean(method_smoothing="PS"): `_format_data` values and weights on the points `d`
